@@ -16,7 +16,7 @@ from .. import kernel as K
 ID = "C04"
 ENGINE = "iosim"
 LEVEL = "exploration"
-BUDGET = {"quick": 75, "thorough": 1200}
+BUDGET = {"quick": 60, "thorough": 1200}
 RUN_TIMEOUT = 120
 REPLAY_TRIES = 6
 SELFTEST_PAIRS = {"quick": 16, "thorough": 40}
